@@ -238,8 +238,9 @@ func (g *gen) validator() *state.Validator {
 	if ds != nil {
 		v.Delegations = ds
 	}
-	if g.n(2) == 0 {
-		v.Ext = state.Extension{Version: 1, Data: hexutil.Bytes(g.bytes(1 + g.n(8)))}
+	if g.n(3) > 0 {
+		// the extension: every version around the known one, data shorter and longer than the 8 bytes version 1 holds
+		v.Ext = state.Extension{Version: []uint8{0, 1, 1, 2, 255}[g.n(5)], Data: hexutil.Bytes(g.bytes([]int{0, 1, 8, 9, 32}[g.n(5)]))}
 	}
 	return v
 }
@@ -496,15 +497,26 @@ func init() {
 		codes := []string{ucon.MsgNamePriority, ucon.MsgNameBlock, ucon.MsgNamePrevote, ucon.MsgNamePrecommit, ucon.MsgNameNext, ucon.MsgNameCert}
 		code := ucon.StringToMessageCode(codes[g.n(len(codes))])
 		var payload []byte
-		switch g.n(3) {
+		key := g.key()
+		switch g.n(4) {
 		case 0:
 			payload = mustEnc(g.votes())
 		case 1:
 			payload = mustEnc(g.consensusCommon())
+		case 2:
+			// a message the entry-point fixture accepts: a vote for its current round, signed by its validator key
+			for {
+				v := g.votes()
+				if v.Round.Cmp(big.NewInt(ctxRound)) == 0 {
+					payload = mustEnc(v)
+					break
+				}
+			}
+			code, key = ucon.StringToMessageCode(codes[2+g.n(3)]), g.keys[1]
 		default:
 			payload = g.blob()
 		}
-		sig, err := ucon.Sign(g.key().Priv, append(append([]byte{}, payload...), byte(code)))
+		sig, err := ucon.Sign(key.Priv, append(append([]byte{}, payload...), byte(code)))
 		if err != nil {
 			panic(err)
 		}
